@@ -10,7 +10,8 @@
 (***************************************************************************)
 EXTENDS Api, Json
 
-CONSTANT MaxOps
+CONSTANTS MaxOps,
+          Alpha      \* "full": every text and call below; "core": the smaller alphabet used at the larger depth
 
 VARIABLES ctx, solo, vcount, hist
 vars == <<ctx, solo, vcount, hist>>
@@ -40,7 +41,8 @@ Texts ==
                 T("m"), TkP("{"), T("x"), TkP("="), T("3"), TkP("}")>>,
    fillt  |-> <<T("t"), T("a"), TkP("{"), T("x"), TkP("="), T("1"), T("tl"), TkP("+="), T("v"), TkP("}")>>,
    opent  |-> <<T("t"), T("a"), TkP("{"), TkP("}")>>]
-TextNames == {"newm", "key", "seti", "stray", "opens1", "threem", "fillt", "opent"}
+TextNames == IF Alpha = "core" THEN {"newm", "key", "opens1"}
+             ELSE {"newm", "key", "seti", "stray", "opens1", "threem", "fillt", "opent"}
 
 M1 == <<[oi |-> 3, ii |-> 1]>>
 M2 == <<[oi |-> 3, ii |-> 2]>>
@@ -53,7 +55,8 @@ Calls ==
    sib2    |-> Call("addlist", M2, "ml", 0, "", <<"e">>),
    rms1    |-> Call("rmnsec", <<>>, "s1", 0, "", <<>>),
    rmm0    |-> Call("rmnsec", <<>>, "m", 0, "", <<>>)]
-CallNames == {"setint", "note", "addt", "rmt", "sib1", "sib2", "rms1", "rmm0"}
+CallNames == IF Alpha = "core" THEN {"note", "addt", "sib1", "sib2", "rms1"}
+             ELSE {"setint", "note", "addt", "rmt", "sib1", "sib2", "rms1", "rmm0"}
 
 (* cfg_set_validate_func(cfg, path, cb): on "i" the context's own option; on "m|x" the
    context's own template for future instances of m *)
